@@ -18,7 +18,7 @@ pub struct Case {
 }
 
 fn strategy() -> BoxedStrategy<Case> {
-    (prop_oneof![300 => 1usize..40, 1 => prop::sample::select(vec![1023usize, 1024, 1025, 1100, 2049, 4000])], prop_oneof![400 => 1usize..=6, 1 => prop::sample::select(vec![255usize, 256, 257, 300])])
+    (prop_oneof![300 => 1usize..40, 1 => prop::sample::select(vec![1023usize, 1024, 1025, 1100, 2049, 4000, 65537, 65541, 70000, 80000])], prop_oneof![400 => 1usize..=6, 1 => prop::sample::select(vec![255usize, 256, 257, 300])])
         .prop_flat_map(|(n, np)| {
             // big torrents: few peers (one of them a seed, the others hold a few pieces each)
             let np = if n > 1000 { 2 + np % 3 } else { np };
@@ -103,6 +103,7 @@ pub fn check(c: &Case) -> Outcome {
     o.class_if(candidates.is_empty(), "no-candidate");
     o.class_if(c.peers.len() >= 255, ">=255-peers");
     o.class_if(c.statuses.len() > 1000, ">1000-pieces");
+    o.class_if(c.statuses.len() > 65536, ">65536-pieces");
     o.class_if(missing < 10 && c.statuses.iter().any(|s| (1..=3).contains(s)), "end-game-with-reserved");
     o.class_if(missing >= 10 && c.statuses.iter().any(|s| (1..=3).contains(s)), "normal-with-reserved");
 
@@ -165,14 +166,14 @@ pub fn check(c: &Case) -> Outcome {
 pub fn def() -> PropDef {
     PropDef {
         id: "C13",
-        rule: "a constructed manager state: 1-39 pieces (rarely 1023-4000 pieces with a seed and peers holding 3 % each) with a status vector whose number of non-Have entries is drawn around the end-game threshold (9, 10, 11 forced), Reserved(1..3) mixed in; 1-6 peers with generated advertised sets (random, sparse, full, empty, all identical); the real choose_piece_index is called 8 times for a generated asking peer (samples its internal shuffle). Oracle (validity predicate over any tie-break): result is None iff no candidate exists; otherwise it is advertised by the asking peer, not owned, not reserved unless fewer than 10 pieces are missing, and no candidate is advertised by fewer connected peers. Sub histories: the wire-driven histories of C12 (real connection tasks and manager, pieces completing, chokes with blocks in flight, disconnects) judged by one clause of this property: no assignment picks a piece that another peer is already fetching while ten or more pieces are missing, and an unchoking peer whose Unchoke or finished piece makes the manager pick gets a piece whenever it advertises one that is Missing (\"picks nothing exactly when no such piece exists\") - this reaches manager state that set-up hooks cannot construct (e.g. bookkeeping that drifts when a piece completes twice). Non-trivial (states) = two candidates with different availability or missing in {9,10,11}; distinct by hash of the case.",
+        rule: "a constructed manager state: 1-39 pieces (rarely 1023-4000 or 65537-80000 pieces - indices beyond 16 bits - with a seed and peers holding 3 % each) with a status vector whose number of non-Have entries is drawn around the end-game threshold (9, 10, 11 forced), Reserved(1..3) mixed in; 1-6 peers with generated advertised sets (random, sparse, full, empty, all identical); the real choose_piece_index is called 8 times for a generated asking peer (samples its internal shuffle). Oracle (validity predicate over any tie-break): result is None iff no candidate exists; otherwise it is advertised by the asking peer, not owned, not reserved unless fewer than 10 pieces are missing, and no candidate is advertised by fewer connected peers. Sub histories: the wire-driven histories of C12 (real connection tasks and manager, pieces completing, chokes with blocks in flight, disconnects) judged by one clause of this property: no assignment picks a piece that another peer is already fetching while ten or more pieces are missing, and an unchoking peer whose Unchoke or finished piece makes the manager pick gets a piece whenever it advertises one that is Missing (\"picks nothing exactly when no such piece exists\") - this reaches manager state that set-up hooks cannot construct (e.g. bookkeeping that drifts when a piece completes twice). Non-trivial (states) = two candidates with different availability or missing in {9,10,11}; distinct by hash of the case.",
         assumptions: &["states are constructed through set-up hooks (verif_set_status / verif_set_peer_pieces); reachability of each state through real traffic is not required by the property (it quantifies over all status vectors and peer sets)"],
         subs: vec![Sub {
             name: "states",
             cases: |t| t.pick(500_000, 5_000_000),
             run: |ctx| run_proptest(ctx, "states", strategy(), check),
             replay: |v| replay_case::<Case>(v, check),
-            min_class: &[("candidates-with-different-availability", 0.1757), ("missing=9", 0.03), ("missing=10", 0.03), ("missing=11", 0.03), ("no-candidate", 0.05), ("end-game-with-reserved", 0.1), ("normal-with-reserved", 0.1), (">1000-pieces", 0.001)],
+            min_class: &[("candidates-with-different-availability", 0.1757), ("missing=9", 0.03), ("missing=10", 0.03), ("missing=11", 0.03), ("no-candidate", 0.05), ("end-game-with-reserved", 0.1), ("normal-with-reserved", 0.1), (">1000-pieces", 0.001), (">65536-pieces", 0.0003)],
         },
         Sub {
             name: "histories",
